@@ -35,6 +35,9 @@ pub struct WorldCfg {
     pub disable_if_not_synced: bool,
     pub fees: Option<Fees>,
     pub syncing: bool,
+    /// also set the remaining configuration fields to non-default values (watchdog
+    /// canister, burn_cycles, blocks source)
+    pub exotic: bool,
 }
 
 impl WorldCfg {
@@ -47,6 +50,7 @@ impl WorldCfg {
             disable_if_not_synced: false,
             fees: None,
             syncing: true,
+            exotic: false,
         }
     }
     pub fn on(net: Network, threshold: u32) -> Self {
@@ -100,6 +104,8 @@ pub struct Announced {
     pub prev: H32,
     pub height: u32,
     pub header: bitcoin::block::Header,
+    /// the block this header belongs to (known for the first header of a chain)
+    pub block: Option<bitcoin::Block>,
 }
 
 /// Resets the thread's canister to a freshly initialised one.
@@ -121,13 +127,21 @@ pub fn reset_canister(cfg: &WorldCfg) {
     ic_btc_canister::init(InitConfig {
         stability_threshold: Some(cfg.threshold as u128),
         network: Some(cfg.net),
-        blocks_source: None,
+        blocks_source: if cfg.exotic {
+            Some(candid::Principal::from_slice(&[7, 7, 7]))
+        } else {
+            None
+        },
         syncing: Some(flag(cfg.syncing)),
         fees: cfg.fees.clone(),
         api_access: Some(flag(cfg.api_access)),
         disable_api_if_not_fully_synced: Some(flag(cfg.disable_if_not_synced)),
-        watchdog_canister: None,
-        burn_cycles: None,
+        watchdog_canister: if cfg.exotic {
+            Some(Some(candid::Principal::from_slice(&[9, 9])))
+        } else {
+            None
+        },
+        burn_cycles: if cfg.exotic { Some(Flag::Enabled) } else { None },
         lazily_evaluate_fee_percentiles: Some(flag(cfg.lazy_fees)),
     });
 }
